@@ -8,6 +8,7 @@ import (
 
 	proto "github.com/kubewharf/kubebrain-client/api/v2rpc"
 
+	"github.com/kubewharf/kubebrain/pkg/backend"
 	"github.com/kubewharf/kubebrain/pkg/backend/scanner"
 	"github.com/kubewharf/kubebrain/pkg/storage"
 	"github.com/kubewharf/kubebrain/zz_verif/h/hx"
@@ -261,8 +262,87 @@ func permutations(n int) [][]int {
 	return out
 }
 
+// c13RunTiKV: the same read paths over the TiKV adapter with REAL region borders: for every subset of
+// up to two stored internal keys a mock cluster is bootstrapped with those split keys, the history is
+// replayed on it and the four read paths are compared with the model (no partition injection).
+func c13RunTiKV(hist []int) *mc.SeqOut {
+	out := &mc.SeqOut{}
+	alpha := c13Alphabet()
+	scanner.VerifSetRangeStreamBatch(2)
+	// the stored internal keys of this history (engine independent): taken from an in-memory run
+	ref := &c13World{world: newWorldCompat(hx.Mem, 16, true), m: newMvcc(), x: out}
+	for _, a := range hist {
+		o := alpha[a]
+		if !ref.applyOp(out, ref.m, "C13", c13Keys[o.key], o) {
+			ref.close()
+			return out
+		}
+	}
+	var stored [][]byte
+	lo, hi := hx.Coder.EncodeObjectKey([]byte("/r/"), 0), hx.Coder.EncodeObjectKey([]byte("/r0"), 0)
+	for _, r := range hx.Dump(ref.kv) {
+		if bytes.Compare(r.Key, lo) > 0 && bytes.Compare(r.Key, hi) < 0 {
+			stored = append(stored, r.Key)
+		}
+	}
+	ref.clean = true
+	ref.close()
+	subsets := [][][]byte{}
+	for i := range stored {
+		subsets = append(subsets, [][]byte{stored[i]})
+		for j := i + 1; j < len(stored); j++ {
+			subsets = append(subsets, [][]byte{stored[i], stored[j]})
+		}
+	}
+	nPart := 0
+	for _, sub := range subsets {
+		if mc.Expired() {
+			out.Cut = true
+			break
+		}
+		kv, cleanup, err := hx.NewEngine(hx.TiKV, sub...)
+		if err != nil {
+			panic(err)
+		}
+		w := &world{engine: hx.TiKV, cleanup: cleanup}
+		w.kv = hx.NewDeco(kv, false)
+		w.b = backend.NewBackend(w.kv, backend.Config{Prefix: "/r", Identity: "n1", WatchCacheSize: 16, EnableEtcdCompatibility: true}, hx.NopMetrics{})
+		w.b.SetCurrentRevision(base)
+		vrt.Quiesce()
+		cw := &c13World{world: w, m: newMvcc(), x: out}
+		ok := true
+		for _, a := range hist {
+			o := alpha[a]
+			if !cw.applyOp(out, cw.m, "C13", c13Keys[o.key], o) {
+				ok = false
+				break
+			}
+		}
+		if ok {
+			var ds []string
+			for _, b := range sub {
+				ds = append(ds, describeBorder(b))
+			}
+			nPart++
+			cw.checkPartitioning(fmt.Sprintf("tikv regions split at [%s]", strings.Join(ds, ", ")), cw.splitsKey(sub), true)
+		}
+		cleanup()
+		if len(out.Viols) > 0 {
+			break
+		}
+	}
+	if !out.Cut && len(out.Viols) == 0 {
+		out.Key = fmt.Sprint(hist)
+	}
+	out.Obs = fmt.Sprintf("tikv-region-layouts=%d", nPart)
+	return out
+}
+
 func c13Run(maxBorders int) func(cfg int, hist []int) *mc.SeqOut {
 	return func(cfg int, hist []int) *mc.SeqOut {
+		if cfg == 1 {
+			return c13RunTiKV(hist)
+		}
 		out := &mc.SeqOut{}
 		alpha := c13Alphabet()
 		scanner.VerifSetRangeStreamBatch(2)
@@ -315,16 +395,26 @@ func c13Run(maxBorders int) func(cfg int, hist []int) *mc.SeqOut {
 		for _, c := range cands {
 			try([][]byte{c}, true)
 		}
-		pairSet := reduced
-		if maxBorders >= 3 {
-			pairSet = cands
-		}
-		for i := range pairSet {
-			for j := i + 1; j < len(pairSet) && !out.Cut; j++ {
-				try([][]byte{pairSet[i], pairSet[j]}, maxBorders >= 3)
+		// pairs: reduced set in every order of the three partitions (thorough) / two orders (quick);
+		// thorough adds pairs over the full candidate set in two orders and triples over the reduced set
+		for i := range reduced {
+			for j := i + 1; j < len(reduced) && !out.Cut; j++ {
+				try([][]byte{reduced[i], reduced[j]}, maxBorders >= 3)
 			}
 		}
 		if maxBorders >= 3 {
+			isReduced := map[string]bool{}
+			for _, r := range reduced {
+				isReduced[string(r)] = true
+			}
+			for i := range cands {
+				for j := i + 1; j < len(cands) && !out.Cut; j++ {
+					if isReduced[string(cands[i])] && isReduced[string(cands[j])] {
+						continue
+					}
+					try([][]byte{cands[i], cands[j]}, false)
+				}
+			}
 			for i := range reduced {
 				for j := i + 1; j < len(reduced); j++ {
 					for k := j + 1; k < len(reduced) && !out.Cut; k++ {
@@ -368,15 +458,25 @@ func init() {
 		},
 		Drive: func(c *mc.Ctx) {
 			depth := 3
-			if c.Tier == "thorough" {
-				depth = 4
-			}
 			mc.SeqFullDepth = 1 // every state costs thousands of partitionings; its oracle reads, it does not write
+			mc.SeqOpsPerJob = 1 // one (expensive) execution per worker job
+			var st2 mc.SeqStats
+			if c.Tier == "thorough" {
+				// real region borders on the tikv mock cluster, within a third of the budget
+				full := c.Deadline
+				c.Deadline = c.Start.Add(full.Sub(c.Start) / 3)
+				st2 = mc.DriveSeq(c, "bfs", 1, len(c13Alphabet()), 2)
+				c.Cov["bfs_tikv_real_regions"] = st2
+				c.Deadline = full
+			}
 			st := mc.DriveSeq(c, "bfs", 0, len(c13Alphabet()), depth)
+			c.Cov["bfs"] = st
+			st.States += st2.States
+			st.Transitions += st2.Transitions
+			st.Evals += st2.Evals
 			c.Cov["states"] = st.States
 			c.Cov["transitions"] = st.Transitions
 			c.Cov["oracle_evaluations"] = st.Evals
-			c.Cov["bfs"] = st
 		},
 	})
 }
